@@ -25,8 +25,8 @@ REVIEWED = [
     (r'.', r'^<T, E>::unwrap\(<T>::lock\(', 'Mutex poisoning needs an earlier panic inside a critical section; every critical section is itself covered by this table'),
     (r'.', r'^(time::sleep|time::sleep_until|tokio::spawn)\(', 'tokio API: panics only outside a runtime / without time driver (precondition of the crate)'),
     # tokio::select! internals
-    (r'(run|run_once)::\{closure#0\}(::\{closure#\d\})?$', r'^(overflow:Add\(support::thread_rng_n|rem_zero\(\{closure#0\}::BRANCHES|overflow:Shl\(Rem\()', 'tokio::select! internal: random start index modulo BRANCHES (const >= 1) and branch mask shifts < BRANCHES <= 8'),
-    (r'(run|run_once)::\{closure#0\}(::\{closure#\d\})?$', r'^diverge:panicking::panic_fmt\[unreachable/select\]', 'tokio::select! internal unreachable!() after an exhaustive branch-index match'),
+    (r'::\{closure#0\}(::\{closure#\d+\})?$', r'^(overflow:Add\(support::thread_rng_n|rem_zero\(\{closure#0\}::BRANCHES|overflow:Shl\(Rem\()', 'tokio::select! internal: random start index modulo BRANCHES (const >= 1) and branch mask shifts < BRANCHES <= 8'),
+    (r'::\{closure#0\}(::\{closure#\d+\})?$', r'^diverge:panicking::panic_fmt\[unreachable/select\]', 'tokio::select! internal unreachable!() after an exhaustive branch-index match'),
     (r'handler::DhtHandler::run_once::\{closure#0\}$', r'^diverge:panicking::panic_fmt\[panic/select\]', 'select! "all branches disabled": three of the four branches have no precondition (premise SELECT-LIVE)'),
     (r'action::bootstrap::TableBootstrapInner::run::\{closure#0\}$', r'^diverge:panicking::panic_fmt\[panic/select\]', 'select! "all branches disabled": the loop breaks on exactly that condition right before the select (premise SELECT-GUARD)'),
     # counters
@@ -49,7 +49,7 @@ REVIEWED = [
     (r'^compact::nodes::serialize$', r'^overflow:Mul\(<impl \[T\]>::len\(nodes\)', 'number of nodes times 26/38'),
     (r'^compact::nodes::deserialize$', r'^<impl \[T\]>::chunks_exact\(', 'chunk size 20 + ADDR_LEN > 0'),
     (r'^compact::nodes::deserialize::\{closure#0\}$', r'^Index::index\(chunk, Range(To|From)\{info_hash::NODE_ID_LEN\}\)$', 'chunk has exactly 20 + ADDR_LEN >= 20 bytes (chunks_exact)'),
-    (r'^socket::Socket::recv::\{closure#0\}$', r'^Index::index\(vec::from_elem\(0\), Range\{0, ', 'buffer[0..size] with size returned by recv_from for that buffer'),
+    (r'^socket::Socket::recv::\{closure#0\}$', r'^Index::index\(vec::from_elem\(0\), Range(To)?\{(0, )?', 'buffer[0..size] / buffer[..size] with size returned by recv_from for that buffer'),
     (r'^action::lookup::insert_sorted_node$', r'^(Index::index|<T, A>::insert)\(nodes, <impl \[T\]>::binary_search_by', 'index returned by binary_search over the same vector (<= len; Ok(i) < len)'),
     (r'^table::RoutingTable::bucket_node$', r'^IndexMut::index_mut\(self\.buckets, table::bucket_placement\(', 'bucket_placement returns min(ideal, len - 1) < len (C08 placement table; len >= 1)'),
     (r'^table::(can_split_bucket|bucket_placement|precompute_assorted_nodes|bucket_iterator)$', r'^overflow:Sub\((num_buckets|<impl \[T\]>::len\(buckets\)), 1\)$', 'the table always has at least one bucket (C08: pop is followed by two pushes; no other remover)'),
@@ -143,6 +143,7 @@ def select_entries(body, sym):
             if e[0] == 'call' and e[1] == 'std::future::poll_fn':
                 cl = e[2][0]
                 mask = None
+                nb = None
                 if cl[0] == 'closure':
                     for cap in cl[2]:
                         c = cap
@@ -151,7 +152,10 @@ def select_entries(body, sym):
                         v = default_zero(c)
                         if v is not None:
                             mask = v
-                out.append((p, e, mask))
+                        # the futures of the branches travel as one tuple: its arity is the number of branches
+                        if isinstance(c, tuple) and c and c[0] == 'agg' and c[1] == 'tuple' and len(c[2]) >= 2:
+                            nb = len(c[2])
+                out.append((p, e, mask, nb))
     return out
 
 
@@ -166,15 +170,16 @@ def rule_select_premises(ctx, res):
         s.run()
         res.paths += len(s.paths)
         ents = select_entries(b, s)
-        ok = bool(ents) and branches is not None
+        ok = bool(ents)
         n = 0
         n_all = 0
-        for p, e, mask in ents:
+        for p, e, mask, nb in ents:
             n += 1
-            if mask is None:
+            width = nb if nb is not None else branches
+            if mask is None or width is None:
                 ok = False
                 continue
-            if mask != (1 << branches) - 1:
+            if mask != (1 << width) - 1:
                 continue
             n_all += 1
             # all branches disabled on this path: it must be infeasible, i.e. some quantity was observed both true and false
